@@ -130,8 +130,9 @@ def make_machine(which, base_dir):
                   rows=st.lists(st.tuples(st.one_of(floats, st.sampled_from([0.0, -0.0, 1.0, -1.0, 0.5, -0.25]),
                                                     st.integers(-4, 4).map(float)), st.integers(0, 6)),
                                 min_size=1, max_size=40),
-                  extra_types=st.lists(st.sampled_from(TYPES), min_size=0, max_size=2))
-            def make_runs(self, group, fmt, descending, n_runs, tie_pool, rows, extra_types):
+                  extra_types=st.lists(st.sampled_from(TYPES), min_size=0, max_size=2),
+                  row_group=st.sampled_from([None, None, 1, 2, 3, 5]))
+            def make_runs(self, group, fmt, descending, n_runs, tie_pool, rows, extra_types, row_group):
                 runs = [[] for _ in range(n_runs)]
                 for rid, (sc, where) in enumerate(rows):
                     if tie_pool:
@@ -139,7 +140,8 @@ def make_machine(which, base_dir):
                         sc = float(int(sc) % tie_pool - tie_pool // 2)
                     runs[(where + rid) % n_runs if where < 5 else 0].append([sc, rid])
                 runs = [r for r in runs if r]
-                self._do("make_runs", group=group, fmt=fmt, runs=runs, descending=descending, extra_types=extra_types)
+                self._do("make_runs", group=group, fmt=fmt, runs=runs, descending=descending, extra_types=extra_types,
+                         row_group=row_group if fmt == "parquet" else None)
 
             def _groups(self):
                 return sorted({k.rsplit("_", 1)[0] for k, t in self.world.tables.items() if t["kind"] == "run"})
